@@ -8,6 +8,7 @@ import (
 	"sort"
 
 	"github.com/Eyevinn/dash-mpd/mpd"
+	"github.com/Eyevinn/mp4ff/mp4"
 )
 
 // VerifRep is the model-relevant part of a loaded representation.
@@ -116,4 +117,48 @@ func (s *Server) VerifAudioRecipe(assetPath, repID string, refNr uint32, refStar
 // VerifAudioTimeFromRef wraps calcAudioTimeFromRef.
 func VerifAudioTimeFromRef(refTime, refTimescale, frameDur, audioTimescale uint64) uint64 {
 	return calcAudioTimeFromRef(refTime, refTimescale, frameDur, audioTimescale)
+}
+
+// VerifChunk is one chunk produced by chunkSegment.
+type VerifChunk struct {
+	NrSamples   int
+	FirstDecode uint64
+	Dur         uint64
+	HasStyp     bool
+}
+
+// VerifChunkSegment builds a one-fragment segment with the given sample durations for a loaded representation and
+// runs chunkSegment on it.
+func (s *Server) VerifChunkSegment(assetPath, repID string, durs []uint32, chunkDur int, newTime uint64, newNr uint32) ([]VerifChunk, error) {
+	a := s.assetMgr.assets[assetPath]
+	rep := a.Reps[repID]
+	seg := mp4.NewMediaSegment()
+	frag, err := mp4.CreateFragment(newNr, rep.initSeg.Moov.Trak.Tkhd.TrackID)
+	if err != nil {
+		return nil, err
+	}
+	seg.AddFragment(frag)
+	tot := uint32(0)
+	t := newTime
+	for i, d := range durs {
+		frag.AddFullSample(mp4.FullSample{Sample: mp4.Sample{Flags: mp4.SyncSampleFlags, Dur: d, Size: 1}, DecodeTime: t, Data: []byte{byte(i)}})
+		tot += d
+		t += uint64(d)
+	}
+	chunks, err := chunkSegment(rep.initSeg, seg, segMeta{rep: rep, newTime: newTime, newNr: newNr, newDur: tot, timescale: uint32(rep.MediaTimescale)}, chunkDur)
+	if err != nil {
+		return nil, err
+	}
+	out := make([]VerifChunk, len(chunks))
+	for i, c := range chunks {
+		fss, err := c.frag.GetFullSamples(rep.initSeg.Moov.Mvex.Trex)
+		if err != nil {
+			return nil, err
+		}
+		out[i] = VerifChunk{NrSamples: len(fss), Dur: c.dur, HasStyp: c.styp != nil}
+		if len(fss) > 0 {
+			out[i].FirstDecode = fss[0].DecodeTime
+		}
+	}
+	return out, nil
 }
